@@ -179,12 +179,7 @@ class Filenames(object):
                 # Limit other variables to specified number of words
                 elif format and key in currentns:
                     value = currentns[key].split()
-                    newvalue = []
-                    for i in range(int(format)):
-                        newvalue.append(value.pop(0))
-                        if not value:
-                            break
-                    currentns[key] = ' '.join(newvalue)
+                    currentns[key] = ' '.join(value[:int(format)])
             try:
                 # Strip formats
                 item = re.sub(r'(\$\{\w+)\.\d+(\})', r'\1\2', item)
@@ -222,12 +217,7 @@ class Filenames(object):
                     # Limit other variables to specified number of words
                     elif format and key in currentns:
                         value = currentns[key].split()
-                        newvalue = []
-                        for i in range(int(format)):
-                            newvalue.append(value.pop(0))
-                            if not value:
-                                break
-                        currentns[key] = ' '.join(newvalue)
+                        currentns[key] = ' '.join(value[:int(format)])
                 try:
                     # Strip formats
                     item = re.sub(r'(\$\{\w+)\.\d+(\})', r'\1\2', item)
